@@ -58,6 +58,9 @@ fn impl_err(code: usize, k: usize) -> Error {
 /// style: 0 = f always returns Owned; 1 = f returns Borrowed(input) when f(x)=x;
 /// 2 = additionally a Borrowed sub-slice of the input whenever the image occurs in it (first
 /// occurrence: a prefix in universe 0); 3 = the same with the last occurrence (a suffix in universe 0)
+/// 4 = always Borrowed of a `'static` string that lies OUTSIDE the argument (a table entry, a
+/// literal), even when the content equals the argument; 5 = Borrowed(input) when unchanged, else
+/// such a foreign `'static` string
 /// form: 0 = &str, 1 = String, 2 = Cow::Borrowed, 3 = Cow::Owned
 pub fn check_fn(f: &[usize], k: usize, start: usize, style: u8, form: u8, uni: u8, st: &mut Stats) {
     let names: Vec<String> = universe(uni, k);
@@ -73,7 +76,9 @@ pub fn check_fn(f: &[usize], k: usize, start: usize, style: u8, form: u8, uni: u
         if img >= k {
             return Err(impl_err(img, k));
         }
-        if img == i && style >= 1 {
+        if style == 4 || (style == 5 && img != i) {
+            Ok(Cow::Borrowed(foreign(uni, img)))
+        } else if img == i && style >= 1 {
             Ok(Cow::Borrowed(unsafe_same(x)))
         } else if img != i && style >= 2 && x.contains(names[img].as_str()) {
             // a borrowed sub-slice of the input: different content, Borrowed variant
@@ -85,6 +90,13 @@ pub fn check_fn(f: &[usize], k: usize, start: usize, style: u8, form: u8, uni: u
     });
     fn unsafe_same(x: &str) -> &str {
         x
+    }
+    fn foreign(uni: u8, img: usize) -> &'static str {
+        if uni == 0 {
+            &"aaaaaaaaaaaa"[..img]
+        } else {
+            UNIVERSE_B[img]
+        }
     }
     let s0 = names[start].clone();
     crate::watch::context(&format!("stabilize with f={:?} over universe {:?}, start {}, style {}, form {}", f, names, start, style, form));
@@ -235,7 +247,7 @@ pub fn check_nested(g: &[usize], h: &[usize], k: usize, start: usize, st: &mut S
     st.count("out:nested");
 }
 
-fn decode(mut idx: u64, k: usize) -> Vec<usize> {
+pub fn decode(mut idx: u64, k: usize) -> Vec<usize> {
     let base = (k + 2) as u64;
     let mut f = vec![0usize; k];
     for slot in f.iter_mut() {
@@ -284,7 +296,7 @@ pub fn run(_env: &Env, run: &Run) -> (Stats, Coverage) {
                 st.states += 1;
                 // transitions = applications the reference makes along the chain
                 for uni in 0..2u8 {
-                    for style in 0..4u8 {
+                    for style in 0..6u8 {
                         // the argument forms only matter at entry; rotate them over styles/starts
                         for form in 0..4u8 {
                             if run.tier == Tier::Quick || form == ((start as u8 + style + uni) % 4) || idx % 7 == 0 {
@@ -332,7 +344,7 @@ pub fn run(_env: &Env, run: &Run) -> (Stats, Coverage) {
     let cov = Coverage {
         rule: format!("state = (f, start, universe, Cow style, argument form) with f ranging over ALL {}^{} functions from a {}-element universe of strings (two universes: a^i, and distinct characters nested at the start / middle / end of each other) to that universe + {{Err(Invalid), Err(BadCodepoint)}}; oracle = RFC 8264 s.7 chain semantics (first application + 3 re-applications), call log must equal the chain; plus re-entrant use f(x) = h(stabilize(x, g)) for ALL pairs (g, h) of functions on a 3/4-element universe; non-trivial = chains needing more than one application", base, k, k),
         alphabet: json!({"universe": (0..k).map(name).collect::<Vec<_>>(), "universe_1": UNIVERSE_B.iter().take(k).collect::<Vec<_>>(), "errors": ["Invalid", "BadCodepoint(0x42,7,Disallowed)"]}),
-        bound_completed: format!("all {} functions x {} starts x 2 universes x 4 Cow styles (always Owned / Borrowed when unchanged / Borrowed sub-slice at the first / last occurrence of the image in the argument: prefixes, suffixes and slices that drop bytes at both ends) (x 4 argument forms{})", nf, k, if run.tier == Tier::Quick { "" } else { ", rotated; all 4 on every 7th function" }),
+        bound_completed: format!("all {} functions x {} starts x 2 universes x 6 Cow styles (always Owned / Borrowed when unchanged / Borrowed sub-slice at the first / last occurrence of the image in the argument: prefixes, suffixes and slices that drop bytes at both ends / Borrowed 'static strings outside the argument, always or when changed) (x 4 argument forms{})", nf, k, if run.tier == Tier::Quick { "" } else { ", rotated; all 4 on every 7th function" }),
         exhaustive: true,
         assumptions: vec!["stabilize only observes f through its return values; a universe of k strings contains every chain shape up to length k (converging after 0..k-1 steps, every cycle length <= k, failure at every step)".into()],
         extra: json!({"universe_size": k, "functions": nf}),
